@@ -227,20 +227,28 @@ def afterSide (s : St) (b : Blk) (ptd : Nat) : St :=
     receipts := updB s.receipts b.id true
     seen := updB s.seen b.id true }
 
+/-- `WriteBlockWithState`, canonical case with a reorganisation ahead (fix 141a732): the batch holding the block and its
+    receipts is flushed BEFORE `reorg` re-points number entries and head markers at it. -/
+def afterStored (s : St) (b : Blk) (ptd : Nat) : St :=
+  { afterTd s b ptd with
+    store := upd s.store b.id (some b)
+    receipts := updB s.receipts b.id true }
+
 /-- `BlockChain.WriteBlockWithState` for a block that passed validation.  `coin` is `mrand.Float64() < 0.5`.
-    If `reorg` fails the function returns its error: the batch holding the block is never written (the td record and
-    the committed state stay). -/
+    If `reorg` fails the function returns its error; the td record, the committed state and (since 141a732) the block
+    with its receipts stay. -/
 def writeBlockWithState (s : St) (b : Blk) (coin : Bool) : Out :=
   match s.td b.parent with
   | none => ⟨s, some .unknownAncestor⟩
   | some ptd =>
     match s.store s.head, s.td s.head with
     | some cur, some localTd =>
-      let s1 := afterTd s b ptd
       if decideReorg (ptd + b.diff) localTd b.number cur.number coin then
-        match (if b.parent != cur.id then reorg s1 cur b else some s1) with
-        | none => ⟨s1, some .reorgFail⟩
-        | some s2 => ⟨afterCanon s2 b, none⟩
+        if b.parent != cur.id then
+          match reorg (afterStored s b ptd) cur b with
+          | none => ⟨afterStored s b ptd, some .reorgFail⟩
+          | some s2 => ⟨afterCanon s2 b, none⟩
+        else ⟨afterCanon (afterTd s b ptd) b, none⟩
       else ⟨afterSide s b ptd, none⟩
     | _, _ => ⟨s, some .modelPanic⟩
 
@@ -289,6 +297,12 @@ def processWinners (s : St) : List Blk → List Bool → Out
       | some e => ⟨o.st, some e⟩
       | none => writeBlockWithState o.st w ((coins.drop older.length).headD false)
 
+/-- fix 130fc0e: the recorded total difficulty of a known block exceeds the head's -/
+def heavierThan (s : St) (b : Blk) (localTd : Nat) : Bool :=
+  match s.td b.id with
+  | some e => decide (e > localTd)
+  | none => false
+
 /-- one iteration of the import loop of `insertChain2` for a valid block. -/
 def importOne (s : St) (b : Blk) (coins : List Bool) : Out :=
   match headerCheck s.store b with
@@ -297,8 +311,9 @@ def importOne (s : St) (b : Blk) (coins : List Bool) : Out :=
     match s.store s.head, s.td s.head with
     | some cur, some localTd =>
       if known s b.id then
-        -- ErrKnownBlock: skipped unless the head is below it (a rollback happened)
-        if cur.number ≥ b.number then ⟨s, none⟩
+        -- ErrKnownBlock: skipped unless the head is below it (a rollback happened) or, since 130fc0e, the block is
+        -- heavier than the head (an import interrupted before the head moved)
+        if decide (cur.number ≥ b.number) && !heavierThan s b localTd then ⟨s, none⟩
         else if s.hasState b.parent then writeBlockWithState s b (coins.headD false)
         else ⟨s, some .missingState⟩
       else if !(known s b.parent) then
